@@ -7,8 +7,8 @@
    of a CAS (sofa data, view membership, every structure under its id with every value, references as ids).  L is the
    lexical layer (UTF-8, base64); `std_lex_ok` instantiates it.  Boolean premises (evaluated on every generated case):
    wf_jsonb (distinct view names / sofa ids, encodable texts, structures typed, plain distinct feature names, arrays hold
-   lists, annotations carry a sofa of this CAS and offsets inside its text), ids_distinctb (sofa ids, byte-array ids and
-   structure ids apart), refs_wfb (no id 0, the schema calls exactly the ArrayBase subtypes arrays, `sofa` features hold
+   lists, annotations carry a sofa of this CAS and offsets inside its text), ids_distinctb (sofa ids, the ids of the byte arrays -- each once -- and
+   the ids of the other structures apart), refs_wfb (no id 0, the schema calls exactly the ArrayBase subtypes arrays, `sofa` features hold
    sofas), doc_ok_json (well-formed document). *)
 From Cassis Require Import Base Heap Schema Canon Reach JsonDoc Json JsonProofs JsonProofs2 JsonLoadProofs JsonLex CorrC02.
 From Cassis Require Import JsonWf JsonDocOk.
@@ -43,15 +43,16 @@ Theorem C04_json_refs_resolve : forall L s mode c d c',
 Proof. exact json_refs_resolve. Qed.
 Print Assumptions C04_json_refs_resolve.
 
-(* each structure found is present exactly once, under the id it carries: the entries of the document are the sofas with
-   their byte arrays followed by one entry per structure the traversal returns (ReachProofs.find_all_exact: exactly the
-   structures reachable from the indexed ones; find_all_each_once: each once) *)
+(* each structure is present exactly once, under the id it carries: the entries of the document are the sofas, each byte array
+   in front of the FIRST sofa that refers to it (tviews: the views paired with the arrays written before them; d1bc860), followed
+   by one entry per structure the traversal returns that is not such an array (found_list) (ReachProofs.find_all_exact: exactly
+   the structures reachable from the indexed ones; find_all_each_once: each once) *)
 Theorem C04_json_entries : forall L s mode c d c',
   lex_ok L -> save_json L s mode c = Ok (d, c') -> wf_jsonb s c' = true -> 0 < c_next_id c ->
   exists w (Ev Ef : list entry),
     find_all_fs true s c' = Ok w /\ fs_entries d = Ok (Ev ++ Ef) /\
-    map fst Ev = flat_map (fun v => arr_ids c' v ++ [s_xid (v_sofa v)]) (c_views c) /\
-    map fst Ef = map fst (sort_ids (w_all w)).
+    map fst Ev = flat_map (fun p => arr_ids c' p ++ [s_xid (v_sofa (snd p))]) (tviews c) /\
+    map fst Ef = map fst (found_list c' w).
 Proof.
   intros L s mode c d c' HL Hs Hw Hp.
   destruct (save_json_entries L s mode c d c' HL Hs Hw Hp) as (w & outs & fss & Ev & Ef & sofas & E1 & _ & Ew & _ & _ & _ & _ & HV & HF & _).
